@@ -160,8 +160,9 @@ class Calibrator:
             are given. If omitted, Calibrator uses the PyGAC internal defaults.
         """
         if cls.default_coeffs is None or cls.default_file != coeffs_file:
-            cls.default_file = coeffs_file
             cls.default_coeffs, cls.default_version = cls.read_coeffs(coeffs_file)
+            # remember the file only once it has been read successfully
+            cls.default_file = coeffs_file
         if custom_coeffs:
             LOG.info('Using following custom coefficients "%s".', custom_coeffs)
         customs = custom_coeffs or {}
